@@ -20,7 +20,11 @@ PARTIAL = ["adaptive multitaper: per evaluation the value at a frequency is inde
            "the iteration tolerance only (oracle tolerance 2e-3 relative, max-norm; measured worst 5.7e-4 over 4500 random cases, so "
            "it is not tightened); on EACH grid the estimate, the weight table and the per-taper spectra are compared (1e-9 "
            "elementwise) with an independent per-frequency restatement of the iteration, and the two grids must agree to 1e-10 "
-           "elementwise whenever their weight tables agree at the common bins"]
+           "elementwise whenever their weight tables agree at the common bins",
+           "line-spectrum cases: every class except the adaptive multitaper (its grid-wide stopping rule, above); a value whose "
+           "conditioning-derived tolerance reaches 0.25 (the 1/round-off value at the line of an exactly noiseless record, the "
+           "round-off floor of a periodogram between exactly periodic lines) is compared in order of magnitude only; records an "
+           "estimator refuses on both grids alike (Burg residual <= 0 on a noiseless record) are not cases of this property"]
 ASSUMPTIONS = ["admissible NFFT: >= N (periodogram, multitaper), >= 2*lag+1 (correlogram), >= 2*order (minimum variance), > model "
                "order (parametric and subspace classes)",
                "estimator parameters inside each estimator's documented domain for the data length (orders, lags, NW < N/2, k <= 2NW)",
@@ -34,7 +38,14 @@ RULE = ("random real/complex data of length N in {7, 9, 13, 23, 24, 25, 64, 101,
         "parameters (AR, MA, variance, reflection coefficients, singular values, eigenvalues, multitaper weights, per-taper spectra) "
         "compared across NFFT with the exact expected attribute set per class; options (cross-correlogram, correlation method / norm, "
         "automatic subspace dimension, Yule-Walker norm, Burg order criteria, detrend, 2-D periodogram); input forms int / list / "
-        "float32 / complex64")
+        "float32 / complex64; "
+        "kind 'line' (13 class variants): 1-3 real sinusoids / complex exponentials, N in {24, 25, 32, 37, 40, 64}, white noise of "
+        "relative level 1e-5, 1e-6, ..., 1e-12 and exactly 0, line frequencies exactly on bins common to both grids / on bins of the "
+        "finer grid only / one of each / on DC or Nyquist, pairs (NFFT, c*NFFT) c in {2, 3, 4, 5} from the smallest admissible NFFT "
+        "and non-multiple pairs at the gcd bins, fresh objects or the NFFT setter in either direction, fs in {1, 0.5, 1000, 44100}; "
+        "every common bin compared relative to its own value, |a-b| <= 256*eps*cond*max(|a|,|b|), cond = the conditioning of that bin "
+        "(sqrt(v/vmin) for pole-type estimates, v/vmin minimum variance, sqrt(vmax/v) for polynomial-type, vmax/|v| correlogram, the "
+        "sum for ARMA): 1e-13 relative on the floor, about 4e-6 at a bin 156 dB above the floor; plus the model parameters")
 
 ELEM_TOL = 1e-10        # elementwise: |a-b| <= ELEM_TOL * (max(|a|,|b|) + 1e-3 * peak)   (= 1e-10 relative + 1e-13 * peak absolute)
 ADAPT_TOL = 2e-3        # adaptive multitaper across two grids (max-norm, see PARTIAL)
